@@ -43,6 +43,10 @@ prep_harness() {
 
 build_ferret() {
   TC="$S/tc"
+  # The QBE C sources are #included from outside the cgo package directory, so Go's build
+  # cache does not see edits to them: make their content part of the cgo cache key.
+  local qh; qh=$(cat "$REPO"/qbe/*.c "$REPO"/qbe/*.h "$REPO"/qbe/*/*.c "$REPO"/qbe/*/*.h 2>/dev/null | sha1sum | cut -c1-16)
+  export CGO_CFLAGS="-g -O2 -DVERIF_SRC_HASH=$qh"
   mkdir -p "$TC/bin" "$TC/libs" "$TC/obj"
   ( cd "$REPO" && go build -tags verif -o "$TC/bin/ferret" . ) >"$S/build.log" 2>&1 || { cat "$S/build.log" >&2; die2 "go build of $REPO failed"; }
   # go build with -mod=mod may touch go.sum of the repo; never leave that behind
@@ -193,7 +197,7 @@ main_check() {
         echo "VIOLATION property=$id replay=$dst"
         log "$(head -c 400 "$dst/observed.txt")"
       else
-        log "shard $k exited $rc without a recorded case:"; tail -15 "$d/log" >&2
+        log "shard $k exited $rc without a recorded case:"; grep -v "rapid\] draw" "$d/log" | tail -25 >&2
         infra=1
       fi
     fi
